@@ -460,6 +460,14 @@ func (c *EvalCtx) evalCall(x *ast.CallExpr) Val {
 			return c.eval(args[0])
 		}
 		return c.withState(c.old).eval(args[0])
+	case "cur":
+		// cur(x): the current value of local / parameter x (parameters otherwise denote their entry value)
+		if id, ok := args[0].(*ast.Ident); ok && c.fr != nil {
+			if v, ok := c.localByName(id.Name); ok {
+				return v
+			}
+		}
+		return c.fail("cur(x): x must be a local of the function")
 	case "athead":
 		// athead(k, e): e evaluated in the state at the head of loop[k] (start of the current iteration)
 		k := 0
